@@ -88,6 +88,10 @@ def main():
         sys.exit(2)
     t0 = time.time()
     harnesses = [h for h in cfg.harnesses if tier == "thorough" or h.quick]
+    only = os.environ.get("VERIF_ONLY")  # debugging aid: run only harnesses / tasks whose name contains this
+    if only:
+        harnesses = [h for h in harnesses if only in h.name]
+        cfg.smt_tasks = [t for t in cfg.smt_tasks if only in t.name]
     jobs = int(os.environ.get("VERIF_JOBS", cfg.jobs.get(tier, 10)))
     log_dir = os.path.join(kanirun.OUT_DIR, "logs", "%s_%s" % (prop, tier))
     known = load_known()
